@@ -1028,11 +1028,21 @@ pub fn diff_class(d: &str) -> String {
 }
 
 pub struct LayoutSet {
-    pub all: Vec<Value>,
+    /// shared by every thread of the process (the parsed tables take about a gigabyte)
+    pub all: std::sync::Arc<Vec<Value>>,
 }
 
 impl LayoutSet {
-    pub fn load(path: &str) -> Self { LayoutSet { all: read_ndjson(path) } }
+    pub fn load(path: &str) -> Self {
+        static CACHE: std::sync::Mutex<Vec<(String, std::sync::Arc<Vec<Value>>)>> = std::sync::Mutex::new(Vec::new());
+        let mut c = CACHE.lock().unwrap();
+        if let Some((_, a)) = c.iter().find(|(p, _)| p == path) {
+            return LayoutSet { all: a.clone() };
+        }
+        let a = std::sync::Arc::new(read_ndjson(path));
+        c.push((path.to_string(), a.clone()));
+        LayoutSet { all: a }
+    }
     pub fn of<'a>(&'a self, proto: &str, sec: &str) -> Vec<&'a Value> {
         self.all
             .iter()
